@@ -3,6 +3,7 @@ the join-type gate of dynamic filter pushdown."""
 from jt import *
 from locks import *
 import C16
+import re
 
 TECHNIQUE = 'static analysis: exhaustive path enumeration over MIR with symbolic guards (read/write atomicity of (expr, generation), monotone cache, lock graph) + finite table of the pushdown gate vs the join model'
 EXPLANATION = ('DynamicFilterPhysicalExpr: (a) current() obtains the expression and the generation from ONE read guard of `inner` '
@@ -30,75 +31,103 @@ def lets(o, name):
     return [e[2] for e in o.events if e[0] == 'let' and e[1] == name]
 
 
+class GuardIds:
+    """lock hook that gives every acquisition its own id: guard#<n>(<mutex place>)"""
+    def __init__(self):
+        self.n = 0
+
+    def __call__(self, ex, name, deff, args):
+        if is_lock_call(name):
+            self.n += 1
+            return sym('guard#%d(%s)' % (self.n, tag_of(args[0]) or '?'))
+        return None
+
+
+_INNER_G = re.compile(r'guard#(\d+)\([^()]*\.inner\)')
+_GEN = re.compile(r'^\??guard#(\d+)\([^()]*\.inner\)\.generation$')
+_CACHE = re.compile(r'^guard#(\d+)\([^()]*\.current_cache\)$')
+
+
 def check_current(ctx, facts, fnpath, prefix, rule='atomic-read'):
+    """name-free: local helpers are inlined, values are followed by origin (which acquisition of which lock they were read under)"""
     rec = facts.fn(fnpath)
     if rec is None:
         ctx.lost(rule, fnpath)
         return 1
     ctx.analysed_fns.add(fnpath)
-    outs = explore(facts, rec, prefix)
+    try:
+        outs = run_traces(facts, rec, C16.args_for(rec), hook=GuardIds(), inline_depth=2, inline_only=(prefix,), budget=900000, time_budget=60, try_tags=True)
+    except Undecidable as e:
+        ctx.undecided(rule, fnpath.rsplit('::', 1)[-1], str(e))
+        return 1
+    torn, mono, hitp = set(), set(), set()
+    n_write = n_hit = 0
+    for o in outs:
+        evs = list(o.events)
+        for k, e in enumerate(evs):
+            if e[0] != 'assign' or not _CACHE.match(e[1] or ''):
+                continue
+            n_write += 1
+            ck = _CACHE.match(e[1]).group(1)
+            v = strip(e[2])
+            pair = strip(read_proj(v, [('f', 0)])) if isinstance(v, A) and v.name == 'Some' else None
+            if not isinstance(pair, T) or len(pair.items) != 2:
+                torn.add('the value stored in the remap cache is not a (generation, expression) pair built here: %s' % show(v)[:80])
+                continue
+            g, x = show(pair.items[0]), show(pair.items[1])
+            mg = _GEN.match(g)
+            if not mg:
+                torn.add('the generation stored in the cache (%s) is not read from `inner` through its guard' % g[:60])
+                continue
+            xs = set(_INNER_G.findall(x))
+            if xs != {mg.group(1)}:
+                torn.add('the cache receives generation %s but an expression read under %s: the pair does not come from ONE acquisition of `inner` '
+                         '(an update between the two reads files the older expression under the newer generation)' % (
+                             g.lstrip('?')[:50], ('acquisition(s) #' + ','.join(sorted(xs))) if xs else 'no guard of `inner`'))
+            # monotone: written only when the cache is empty or on the true edge of generation > cached generation
+            since = [x_ for x_ in evs[:k]]
+            empty = any(x_[0] == 'variant' and norm_tag(x_[1] or '') == 'guard#%s(%s)' % (ck, _CACHE.match(e[1]).group(0).split('(', 1)[1][:-1]) and x_[3] == 'None' for x_ in since)
+            newer = any(x_[0] == 'branch' and x_[2] == 1 and str(x_[1]).startswith('gt(%s,' % g) and ('guard#%s(' % ck) in str(x_[1]) for x_ in since)
+            if not (empty or newer):
+                mono.add('the cache entry is overwritten on a path that did not take the `generation > cached generation` edge (nor found the cache empty)')
+        # cache hit: the cached expression is returned only when its generation equals a generation read from `inner`
+        r = strip(o.ret)
+        if isinstance(r, A) and r.name == 'Ok':
+            rt = show(read_proj(r, [('f', 0)]))
+            mh = re.match(r'^\??(guard#\d+\([^()]*\.current_cache\))\.0\.1$', rt)
+            if mh:
+                n_hit += 1
+                cg = mh.group(1) + '.0.0'
+                okb = False
+                for x_ in evs:
+                    if x_[0] == 'branch' and x_[2] == 1 and str(x_[1]).startswith('eq('):
+                        a_, b_ = str(x_[1])[3:-1].split(',', 1)
+                        a_, b_ = a_.lstrip('?'), b_.lstrip('?')
+                        if (a_ == cg and _GEN.match(b_)) or (b_ == cg and _GEN.match(a_)):
+                            okb = True
+                if not okb:
+                    hitp.add('a cached expression is returned without comparing its generation with the generation of `inner`')
+    problems = sorted(torn | hitp)
+    if n_write == 0:
+        problems.append('no path stores into the remap cache (anchor changed)')
+    if n_hit == 0:
+        problems.append('no cache-hit path found (anchor changed)')
     bad = 0
-    problems = set()
-    n = 0
-    for o in outs:
-        g = [tag_of(v) for v in lets(o, 'generation')]
-        x = [tag_of(v) for v in lets(o, 'expr')]
-        if not g or not x:
-            continue
-        n += 1
-        acq = [e for e in o.events if e[0] == 'callargs' and is_lock_call(e[1]) and (tag_of(e[2][0]) or '').endswith('.inner')]
-        if len(acq) != 1:
-            problems.add('`inner` is locked %d times on one path: expression and generation can come from different generations' % len(acq))
-        gt, xt = g[0] or '', x[0] or ''
-        if not (gt.startswith('guard(') and gt.endswith('.generation')):
-            problems.add('generation is not read through the guard (%s)' % gt)
-        if not xt.startswith('guard('):
-            problems.add('expression is not read through the guard (%s)' % xt)
-        # cache write only on should_write
-        sw = [v for v in lets(o, 'should_write')]
-        wrote = [e for e in o.events if e[0] == 'assign' and e[1].startswith('guard(') and 'current_cache' in e[1]]
-        if wrote:
-            defs = [show(v) for v in sw]
-            okdef = any(d.startswith('?gt(?guard(') and 'generation' in d for d in defs) and any(d == '1' for d in defs) or \
-                all(d == '1' or (d.startswith('?gt(') and 'generation' in d.split(',')[0]) for d in defs) and defs
-            if not sw:
-                problems.add('the cache is overwritten without a should_write decision')
-            elif not okdef:
-                problems.add('the cache is overwritten under a condition other than `generation > cached` (%s)' % defs)
-    if n == 0:
-        problems.add('no path reads (expr, generation) — anchor changed')
-    # the branch: on paths where the comparison is false the cache must not be written: checked via alias refinement
-    for o in outs:
-        ob = dict(o.obs)
     if problems:
         bad += 1
-        ctx.fail(rule, fnpath.rsplit('::', 1)[-1], ctx.loc(rec), '; '.join(sorted(problems)), key='%s|%s' % (rule, fnpath.rsplit('::', 1)[-1]))
+        ctx.fail(rule, fnpath.rsplit('::', 1)[-1], ctx.loc(rec), '; '.join(problems), key='%s|%s' % (rule, fnpath.rsplit('::', 1)[-1]))
     else:
-        ctx.ok(rule, fnpath.rsplit('::', 1)[-1], sample={'fn': fnpath, 'paths_reading_state': n})
+        ctx.ok(rule, fnpath.rsplit('::', 1)[-1], sample={'fn': fnpath, 'paths': len(outs), 'cache_writes': n_write, 'cache_hits': n_hit})
+    if mono:
+        bad += 1
+        ctx.fail('monotone-cache', 'current[cache write]', ctx.loc(rec), '; '.join(sorted(mono)), key='monotone-cache|current')
+    elif n_write:
+        ctx.ok('monotone-cache', 'current[cache write]', sample={'paths_writing_cache': n_write})
     return bad
 
 
 def check_cache_edge(ctx, facts, fnpath, prefix, rule='monotone-cache'):
-    """cache assignment happens only on paths where should_write was refined to true"""
-    rec = facts.fn(fnpath)
-    if rec is None:
-        return 1
-    outs = explore(facts, rec, prefix, observe=('should_write',))
-    bad = 0
-    n = 0
-    for o in outs:
-        wrote = [e for e in o.events if e[0] == 'assign' and e[1].startswith('guard(') and 'current_cache' in e[1]]
-        sw = strip(dict(o.obs).get('should_write', TOP))
-        if wrote:
-            n += 1
-            if not (isinstance(sw, I) and sw.n == 1):
-                bad += 1
-    if bad or n == 0:
-        ctx.fail(rule, 'current[cache write]', ctx.loc(rec), 'the remap cache is written on a path where should_write is not true (or no cache write found: %d)' % n,
-                 key=rule + '|current')
-        return 1
-    ctx.ok(rule, 'current[cache write]', sample={'paths_writing_cache': n})
-    return 0
+    return 0     # decided inside check_current (same paths)
 
 
 def check_update(ctx, facts, fnpath, prefix, rule='atomic-write'):
@@ -212,7 +241,13 @@ def run(ctx):
     probe = common.Ctx(ctx.pid, ctx.tier, st, st, {})
     probe.known = []
     SD = 'dfscan_selftest::dynf::'
-    b1 = check_current(probe, st, SD + 'Dyn::bad_current', SD, rule='st')
-    ctx.selftest('atomic-read detects expr and generation read under two separate guards', b1 > 0)
+    check_current(probe, st, SD + 'Dyn::bad_current', SD, rule='st')
+    check_current(probe, st, SD + 'Dyn::bad_current_reread', SD, rule='st')
+    torn = [v['key'] for v in probe.viol if 'ONE acquisition' in v['msg']]
+    ctx.selftest('atomic-read detects expr and generation read under two separate guards, directly (bad_current) and through helpers (bad_current_reread)',
+                 any('bad_current_reread' in k for k in torn) and any(k.endswith('bad_current') for k in torn))
+    n0 = len(probe.viol)
+    check_current(probe, st, SD + 'Dyn::good_current_split', SD, rule='st')
+    ctx.selftest('atomic-read accepts current() split into helpers that keep one snapshot under one guard', len(probe.viol) == n0)
     b2 = check_update(probe, st, SD + 'Dyn::bad_update', SD, rule='st2')
     ctx.selftest('atomic-write detects generation bumped under a second guard', b2 > 0)
